@@ -162,6 +162,8 @@ fn epilogue(wd: &World) {
     // twice: callbacks that run while the first round releases things may store new handles / cleanables (and a third
     // and fourth time if the second round's callbacks did it again: decided below, when the round has run)
     for _ in 0..2 {
+        acts.push(Act::BulkDrop { k: u16::MAX });
+        acts.push(Act::BulkWeakDrop { k: u16::MAX });
         for i in 0..NC {
             acts.push(Act::CDrop { c: i as u8 });
         }
@@ -241,6 +243,19 @@ fn teardown(wd: &World) {
     let catch = |f: &mut dyn FnMut()| {
         let _ = std::panic::catch_unwind(std::panic::AssertUnwindSafe(f));
     };
+    // after an oracle hit with handle pools in use, counters may be corrupt: leak every handle instead of releasing it
+    let poisoned = wd.failed() && !wd.bulk.borrow().is_empty();
+    #[cfg(feature = "weak-ptrs")]
+    let poisoned = poisoned || (wd.failed() && !wd.wbulk.borrow().is_empty());
+    if poisoned {
+        for c in wd.r.iter().chain(wd.g.iter()) {
+            std::mem::forget(c.borrow_mut().take());
+        }
+        #[cfg(feature = "weak-ptrs")]
+        for c in wd.wr.iter() {
+            std::mem::forget(c.borrow_mut().take());
+        }
+    }
     #[cfg(feature = "cleaners")]
     for c in wd.cr.iter() {
         let mut x = Some(c.borrow_mut().take());
@@ -249,6 +264,28 @@ fn teardown(wd: &World) {
     for c in wd.r.iter().chain(wd.g.iter()) {
         let x = c.borrow_mut().take();
         let mut x = Some(x);
+        catch(&mut || drop(x.take()));
+    }
+    // after an oracle hit the counters of a pooled object may be corrupt: releasing thousands of handles through them is
+    // not safe, so the pools are leaked then
+    let failed = wd.failed();
+    loop {
+        let Some((_, c)) = wd.bulk.borrow_mut().pop() else { break };
+        if failed {
+            std::mem::forget(c);
+            continue;
+        }
+        let mut x = Some(c);
+        catch(&mut || drop(x.take()));
+    }
+    #[cfg(feature = "weak-ptrs")]
+    loop {
+        let Some((_, c)) = wd.wbulk.borrow_mut().pop() else { break };
+        if failed {
+            std::mem::forget(c);
+            continue;
+        }
+        let mut x = Some(c);
         catch(&mut || drop(x.take()));
     }
     #[cfg(feature = "weak-ptrs")]
@@ -402,7 +439,7 @@ fn end_leak_check(wd: &World) {
     // the program may still hold something: a callback that ran while the epilogue released the last handles can have
     // stored a new handle, Weak or Cleanable (a Cleanable keeps the side record of its cleaner's map alive) into a
     // register that had already been emptied. Then nothing is judged here.
-    let held = m.r.iter().any(|x| x.is_some()) || m.g.iter().any(|x| x.is_some()) || m.wr.iter().any(|x| *x != WT::None) || m.cr.iter().any(|x| x.is_some()) || !m.pins.is_empty();
+    let held = m.r.iter().any(|x| x.is_some()) || m.g.iter().any(|x| x.is_some()) || m.wr.iter().any(|x| *x != WT::None) || m.cr.iter().any(|x| x.is_some()) || !m.pins.is_empty() || !m.bulk.is_empty() || !m.wbulk.is_empty();
     drop(m);
     if pinned || held {
         return;
@@ -493,7 +530,7 @@ impl Shard {
                 self.rep.set_add("foreign_signatures", sig.clone());
             }
             // after any hit on a memory-safety oracle the process state cannot be trusted any more
-            if matches!(v.prop, "C01" | "C03" | "C14") || v.oracle.contains("dead") || v.oracle.contains("damaged") {
+            if matches!(v.prop, "C01" | "C03" | "C14" | "C16") || v.oracle.contains("dead") || v.oracle.contains("damaged") {
                 self.stop = true;
             }
         }
@@ -516,12 +553,17 @@ fn parse_fault(s: &str) -> (Option<Fault>, Option<Fault>) {
 
 thread_local! {
     static OPS_OVERRIDE: std::cell::Cell<(usize, usize)> = const { std::cell::Cell::new((0, 0)) };
+    /// no saturation motifs (Miri shards and fault enumeration: too slow to repeat per fault point)
+    pub static NO_BULK: std::cell::Cell<bool> = const { std::cell::Cell::new(false) };
 }
 
 pub fn history_for(mode: &str, gen: &str, seed: u64, idx: u64) -> Option<History> {
     match gen {
         "random" => {
             let mut p = Profile::for_mode(mode);
+            if NO_BULK.with(|b| b.get()) {
+                p.w_bulk = 0;
+            }
             let (lo, hi) = OPS_OVERRIDE.with(|o| o.get());
             if hi > 0 {
                 p.min_ops = lo.min(hi);
@@ -575,6 +617,7 @@ pub fn main(args: &Args) -> i32 {
     let verbose = args.flag("--verbose");
     let only = args.get("--only").and_then(|s| s.parse::<u64>().ok());
     OPS_OVERRIDE.with(|o| o.set((args.usize("--min-ops", 0), args.usize("--max-ops", 0))));
+    NO_BULK.with(|b| b.set(args.flag("--no-bulk") || faults != "none" || mode == "C08diff"));
     // replay of a witness found in a shard: re-run that shard up to the witness (state such as the byte threshold
     // carries over from one history to the next, so the prefix is part of the witness)
     let upto = args.get("--upto").and_then(|s| s.parse::<u64>().ok());
@@ -599,7 +642,7 @@ pub fn main(args: &Args) -> i32 {
             base_args.push(v.to_string());
         }
     }
-    for k in ["--no-state-hash", "--no-buffer-walk"] {
+    for k in ["--no-state-hash", "--no-buffer-walk", "--no-bulk"] {
         if args.flag(k) {
             base_args.push(k.into());
         }
@@ -872,6 +915,8 @@ pub fn emit_stats(rep: &mut Report) {
     rep.count("faults_fired", s.faults_fired.get());
     rep.count("faults_unwound_out_of_collection", s.fault_unwound_collector.get());
     rep.count("cascade_checks", s.cascade_checks.get());
+    rep.count("count_limit_refusals_observed", s.limit_refusals.get());
+    rep.count("acquisitions_beyond_count_limit", s.beyond_limit.get());
     rep.count("stale_callbacks_ignored", s.stale_callbacks.get());
     rep.count("collect_quiet_cap_hits", s.cap_hits.get());
     for (i, n) in ["clone", "mark_alive", "downgrade", "upgrade", "unwrap", "collection"].iter().enumerate() {
